@@ -571,6 +571,10 @@ func (cs *busCase) do(a action) {
 			if a.args[3] == "dead" && cs.nextCtx%2 == 0 {
 				// a context that is over because its deadline has passed, not because somebody cancelled it
 				c, cancel = context.WithDeadline(context.Background(), time.Now().Add(-time.Second))
+			} else if a.args[3] == "fresh" && cs.nextCtx%3 == 1 {
+				// a live context that carries a deadline of its own, far away: the caller's deadline bounds the whole publish,
+				// it does not stand in for the persistence timeout
+				c, cancel = context.WithDeadline(context.Background(), time.Now().Add(time.Hour))
 			}
 			info.root = cs.nextCtx
 			cs.nextCtx++
